@@ -1,10 +1,48 @@
-(* C03 — placeholder until the theorems are stated (replaced below in this session). *)
+(* C03 — Fixtures and hooks: set up before use, torn down exactly once after last use.
+   Statements only. The ordering part is a property of the dispatch loop (Model/Sched.v) over the dependency edges that
+   runner.build_tasks creates (Model/Graph.v, compared with the implementation's graph on every run): for every graph,
+   every number of threads and every interleaving. Proofs: Proofs/SchedP.v. *)
 From Coq Require Import List Arith Bool.
-From LCC Require Import Model.Sched Proofs.SchedP.
-Theorem C03_take_after_dependencies : forall g n sof ms1 t md ms2 s d,
-  1 <= n -> no_interrupt ms1 ->
+Import ListNotations.
+From LCC Require Import Base.Util Model.Proj Model.Sched Model.Graph Model.Fixture Model.TaskSem Proofs.SchedP Proofs.ProtocolP.
+
+(* Setups come first and teardowns last: when a worker takes a task, every task it depends on — on success (a test on its
+   suite's setup task, a suite setup on the session setup ...) or on mere completion (a suite teardown on the suite's setup
+   and on every test of the suite, the session teardown on the end of every top-level suite) — directly or through a chain of
+   dependencies, has been taken, has finished and has been acknowledged, in that order, strictly before.
+   Hence a fixture is evaluated before any consumer starts, and torn down after the last consumer has finished, whether
+   the consumers passed, failed or were skipped. *)
+Theorem C03_setup_before_consumers_teardown_after : forall g n sof t e, dep_path g t e ->
+  forall ms1 md ms2 s, 1 <= n -> no_interrupt ms1 ->
   run g n sof (init g n) (ms1 ++ MTake t md :: ms2) = Some s ->
-  In d (all_deps (get_task g t)) ->
-  count (is_main d) ms1 = 1 /\ count (is_finish d) ms1 = 1.
-Proof. exact take_after_dependencies. Qed.
-Print Assumptions C03_take_after_dependencies.
+  occurs (is_take e) ms1 /\ occurs (is_finish e) ms1 /\ occurs (is_main e) ms1.
+Proof. exact take_after_transitive_dependencies. Qed.
+Print Assumptions C03_setup_before_consumers_teardown_after.
+
+(* each setup / teardown task is executed exactly once in a complete run: a fixture instance is evaluated once and torn
+   down once *)
+Theorem C03_each_phase_exactly_once : forall g n sof ms s t,
+  1 <= n -> run g n sof (init g n) ms = Some s -> finished g s = true -> t < length g ->
+  count (is_take t) ms = 1 /\ count (is_finish t) ms = 1 /\ count (is_main t) ms = 1 /\ dead s = [].
+Proof. exact exactly_once_when_finished. Qed.
+Print Assumptions C03_each_phase_exactly_once.
+
+(* if a setup task does not end with Success its consumers (which depend on it on success) are not executed *)
+Theorem C03_setup_failure_skips_consumers : forall g sof s t deps1 d deps2 r,
+  t_succ (get_task g t) = deps1 ++ d :: deps2 ->
+  (forall x, In x deps1 -> result_of s x = Some ResSuccess) -> result_of s d = Some r -> r <> ResSuccess ->
+  decide g sof s t JHandle = Skip (skip_reason_of r).
+Proof. exact skipped_if_a_dependency_did_not_succeed. Qed.
+Print Assumptions C03_setup_failure_skips_consumers.
+
+(* the edges themselves, on a concrete project: the teardown of a suite waits on completion of the suite's setup and tests,
+   the session teardown on the end of the top suite, tests on the suite setup (non-vacuity of the hypotheses above;
+   for arbitrary projects the graph is compared with runner.build_tasks on every run) *)
+Example C03_witness_graph :
+  let hk := mkHooks (Some ([], [])) (Some []) None None in
+  let s := Suite 5 false hk [] [mkTest 7 false [] [] [] []; mkTest 8 false [] [] [] []] [] in
+  build_tasks (mkSinfo true (fun _ _ => false)) false [s] =
+  Some [mkTask KSessionSetup [] [] []; mkTask KSuiteBegin [5] [0] []; mkTask KSuiteInit [5] [1] [];
+        mkTask KTest [5; 7] [2] []; mkTask KTest [5; 8] [2] []; mkTask KSuiteTeardown [5] [] [2; 3; 4];
+        mkTask KSuiteEnd [5] [1; 3; 4; 5] []; mkTask KSessionTeardown [] [] [6]].
+Proof. vm_compute. reflexivity. Qed.
